@@ -60,7 +60,7 @@ def runs(tier):
             else:
                 for fam in FAMILIES:
                     sw = fam.endswith(".swaps")
-                    add(z2, ["--P", 2, "--R", 3, "--C", 2, "--only", fam, "--budget", 1500, "--validate", 200], 2, 2400)
+                    add(z2, ["--P", 2, "--R", 3, "--C", 2, "--coefs", "0,1,-1,2", "--only", fam, "--budget", 1500, "--validate", 200], 2, 2400)
                     add(zp, ["--P", 3, "--R", 2, "--C", 2, "--coefs", "0,1,2,-1,4", "--only", fam, "--budget", 1500,
                              "--validate", 200], 2, 2400)
                     if not sw:
@@ -76,11 +76,49 @@ def C09():
         "units": units(),
         "level": "model_checking",
         "engine": "E1 history explorer",
-        "technique": "explicit-state BFS of operation histories on the real Matrix (base and column-compressed flavours) with a dense reference matrix compared at every state",
-        "level_text": "(filled in below)",
-        "level_note": "",
-        "rule": "",
-        "bounds": {"quick": "", "thorough": ""},
-        "assumptions": [],
+        "technique": ("explicit-state BFS (with closure) of operation histories on the real Gudhi::persistence_matrix::Matrix in its base and "
+                      "column-compressed flavours, one fresh matrix per history, every read interface compared with a dense reference "
+                      "matrix (plus the partition of column indices for the compressed variant) after every transition"),
+        "level_text": ("for each of the 410 compilable option sets (9 column types x {Z_2, Z_p} x {no row access, 4 row-access kinds} x "
+                       "{vector, map column container} x {swaps off, on}, plus column compression x 5 row kinds; heap has neither rows nor "
+                       "compression) every finite history over the stated universe is covered by a fixpoint of the reachable canonical-state "
+                       "set (model state + complete column internals + lazy swap maps + row containers), or, where stated, every history up "
+                       "to the completed depth; at every state get_number_of_columns, is_zero_column, is_zero_entry for every entry, "
+                       "get_content (given and default length) of every column, every row of the row container and representative sharing "
+                       "are compared with the dense model. This is the level the for-all-histories quantifier needs; larger matrices, larger "
+                       "characteristics and deeper histories where only a depth bound is completed are not covered"),
+        "level_note": ("trusted: the 150-line dense model in checks/c09_common.hpp, the canonical key (validated by merge validation in the "
+                       "thorough tier), g++/ASan/UBSan. Every history runs in an executor child process, so that a sanitizer abort or an "
+                       "endless loop is reported as a class C09:crash:... of that history and the exploration continues; a situation the "
+                       "code has no dedicated path for (null representative of the empty class, source and target in one class, swap of a "
+                       "row the maps do not know) that already killed the executor three times in one worker is counted "
+                       "(not_executed.assumed_crash.*) instead of executed again"),
+        "rule": ("explicit-state BFS over operation histories of the real Matrix (fresh object per history), deduplicated on (dense model, "
+                 "class partition, rows known to the swap maps, storage order / lazy state of every column, swap maps and rowSwapped_, row "
+                 "containers, union-find arrays); a state whose last transition disagreed with the model is not expanded; "
+                 "distinct_nontrivial = distinct canonical states reached; evaluations = histories executed on the real code"),
+        "bounds": {
+            "quick": ("Z_2: 3 rows x <=2 columns, all finite histories (closure) for the shapes without swaps and the compressed ones; "
+                      "2 rows x <=2 columns closure for the shapes with swaps; Z_3: 2 rows x <=2 columns, coefficients 0,1,2: closure "
+                      "without swaps / compressed, depth 3 with swaps; heap columns: 2 rows x <=2 columns, closure over Z_2, depth 3 over Z_3"),
+            "thorough": ("Z_2: 3 rows x <=2 columns closure for every shape (with merge validation) and 3 rows x <=3 columns for the shapes "
+                         "without swaps / compressed; Z_3: 2 rows x <=2 columns closure for every shape with coefficients 0,1,2,-1,4; "
+                         "3 rows x <=2 columns depth 4 and Z_5 2 rows x <=2 columns depth 5 without swaps / compressed; heap: Z_2 3x2 depth 5, "
+                         "2x3 depth 6, Z_3 2x2 depth 5; a universe that does not close inside its time budget is reported as incomplete"),
+        },
+        "assumptions": [
+            "documented preconditions only: insert_column(c, i) needs an index with no live column; erase_empty_row needs an empty row; "
+            "remove_column / remove_last may name an index without column ('considered as an empty column'); source and target of an "
+            "addition are different indices; entry ranges are sorted by row index",
+            "columns that do not exist (holes left by insert_column(c, i) or remove_column) are never read or used as operands; "
+            "get_number_of_columns is compared with the number of stored columns (map container) resp. the next insertion index (vector container)",
+            "with has_column_and_row_swaps, row indices are only used once the matrix can know them (they appeared in an inserted column, "
+            "or were swapped with such a row): the deciding alphabet never names another row in zero_entry, is_zero_entry, erase_empty_row "
+            "or in an entry range; swap_rows itself is called with every pair because the code has explicit branches for unknown rows",
+            "get_row(r) is only called when the row container has an entry for r; a row without entry must be a zero row of the model",
+            "compressed variant: columns inserted empty are singleton classes (null representative); a class emptied by an addition stays one class",
+            "self addition add_to(i, i) is documented neither way and is not generated",
+            "small scope: at most 3 rows, 3 columns, characteristics 2, 3, 5",
+        ],
         "runs": {"quick": runs("quick"), "thorough": runs("thorough")},
     }
